@@ -15,8 +15,8 @@ import lifecycle_common as lc
 
 LEVEL = "model_checking"
 
-FAMILIES = ("hdr", "path", "redir", "direct", "tmo", "pfc")
-ACT_DEFECTS = ("UnknownVarIsVariable", "MissingVarDash", "PercentTrimmed", "PfcRouteFallsBackToVhost", "RewriteCaseSensitive", "VhostBeforeRoute", "RouterBeforeVhost", "AppendNoSeparator", "RemoveBeforeAdd", "RegexOverPrefix",
+FAMILIES = ("hdr", "hdrl", "path", "redir", "direct", "tmo", "pfc")
+ACT_DEFECTS = ("AppendDefaultLeaks", "UnknownVarIsVariable", "MissingVarDash", "PercentTrimmed", "PfcRouteFallsBackToVhost", "RewriteCaseSensitive", "VhostBeforeRoute", "RouterBeforeVhost", "AppendNoSeparator", "RemoveBeforeAdd", "RegexOverPrefix",
                "PrefixRewriteKeepsPrefix", "AutoHostOverHostRewrite", "AutoHostBeforeMutation", "RedirectKeepsPort",
                "RedirectDropsQuery", "RedirectDefault302", "HeaderOverProtocol", "TryNotDisabled")
 RETRY_DEFECTS = ("FinalizeOnRetry", "RetryOnOverflow", "RetryOnIgnored", "StatusListIgnored", "BudgetOffByOne", "BudgetIsNumRetries",
@@ -28,11 +28,13 @@ def levels_class(lv):
     kinds = set()
     for n in used:
         for op in lv[n]["add"]:
-            kinds.add("append" if op["a"] else "overwrite")
+            kinds.add("append" if op["a"] != "f" else "overwrite")
         if lv[n]["rm"]:
             kinds.add("remove")
     var = any(op["v"].startswith("%") and op["v"].endswith("%") and len(op["v"]) > 2 for n in used for op in lv[n]["add"])
-    return "levels=" + "+".join(used) + (":variable-values" if var else "")
+    lists = any(len(lv[n]["add"]) >= 2 for n in used)
+    omitted = any(op["a"] == "d" for n in used for op in lv[n]["add"])
+    return "levels=" + "+".join(used) + (":variable-values" if var else "") + (":list" if lists else "") + (":append-omitted" if omitted else "")
 
 
 def act_signature(e, kind):
@@ -131,13 +133,15 @@ def run(ctx):
     def active(lv):
         return sum(1 for n in ("route", "vhost", "router") if lv[n]["add"] or lv[n]["rm"])
     hdr_all = [x["c"] for x in fam["hdr"]]
+    lists_all = [x["c"] for x in fam["hdrl"]]      # list shapes: 2-3 entries at one level, append stated / omitted per entry
     sampled_hdr = False
-    if q:       # all cases with at most two levels in use, a VERIF_SEED sample of those with three
+    if q:       # all cases with at most two levels in use, a VERIF_SEED sample of those with three and of the list shapes
         three = [c for c in hdr_all if active(c["lv"]) == 3]
         hdr_cases = [c for c in hdr_all if active(c["lv"]) < 3] + rng.sample(three, min(len(three), 1800))
-        sampled_hdr = len(three) > 1800
+        hdr_cases += rng.sample(lists_all, min(len(lists_all), 2400))
+        sampled_hdr = True
     else:
-        hdr_cases = hdr_all
+        hdr_cases = hdr_all + lists_all
     # what the variables resolve to is drawn per case from the environments TLC lists (the model checks all of them)
     hdr_cases = [dict(c, **rng.choice(envs)) for c in hdr_cases]
     perm = list(range(len(hdr_cases)))
@@ -174,8 +178,8 @@ def run(ctx):
     # the two halves combined: the route of a retry run also carries request- and response-side actions (a VERIF_SEED
     # draw from the header cases and from RouteAction's RetryRewrites): every attempt must receive Sem(actions, request)
     rxm = {x["rr"]: x for x in menu[0]["rx"]}
-    hdrs = [x["c"] for x in fam["hdr"]]
-    nonidem = [h for h in hdrs if any(op["a"] for lvl in h["lv"].values() for op in lvl["add"])]
+    hdrs = [x["c"] for x in fam["hdr"]] + rng.sample(lists_all, min(len(lists_all), 2000))
+    nonidem = [h for h in hdrs if any(op["a"] != "f" for lvl in h["lv"].values() for op in lvl["add"])]
     rws = sorted(menu[0]["retryrw"], key=lambda x: json.dumps(x, sort_keys=True))
     withact = []
     for i, x in enumerate(retry):
